@@ -192,9 +192,59 @@ fn lane_scenario(name: &str, n: usize, x: usize) -> Scenario {
 	s
 }
 
+const PA: u16 = 0x0100;
+const PZ: u16 = 0xf000;
+
+/// A growth that takes several batches (hook H10, batch size 1: a batch ends after the first non-empty page): two keys
+/// in a page before the full one, two in a page behind it. The search starts when the growth has just been triggered
+/// (new index current, nothing migrated). Batches: page PA; the full page; page PZ; the rest of the table + drop of the
+/// old index. Commits write, replace and remove keys of pages that are already migrated, being migrated, and not yet
+/// migrated, between any two batches and at any stage of the batch records.
+pub fn multi_scenario(name: &str, n: usize, x: usize, max_r: usize, crash: Option<CrashCfg>) -> Scenario {
+	let mut spec = ColSpec::hash();
+	spec.uniform = true;
+	let mut cfg = Config::new(vec![spec]);
+	cfg.salt = 0;
+	cfg.reindex_batch = Some(1);
+	let mut fill = fill_tx();
+	fill.push((0, Op::Set(page_key(PA, 1), val(601))));
+	fill.push((0, Op::Set(page_key(PA, 2), val(602))));
+	fill.push((0, Op::Set(page_key(PZ, 1), val(611))));
+	fill.push((0, Op::Set(page_key(PZ, 2), val(612))));
+	let over: Tx = vec![(0, Op::Set(page_key(C, 64), val(64)))];
+	let alpha: Vec<Tx> = vec![
+		// replace a key of the first page, remove one of the last page, add one to the last page
+		vec![(0, Op::Set(page_key(PA, 1), val(701))), (0, Op::Del(page_key(PZ, 1))), (0, Op::Set(page_key(PZ, 3), val(713)))],
+		// remove a key of the first page, replace one of the last page and one of the full page
+		vec![(0, Op::Del(page_key(PA, 2))), (0, Op::Set(page_key(PZ, 2), val(722))), (0, Op::Set(page_key(C, 9), val(729)))],
+	];
+	let mut all = alpha.clone();
+	all.push(fill.clone());
+	all.push(over.clone());
+	let mut s = Scenario::new(name, cfg.clone(), alpha);
+	s.universe = universe_of(&cfg, &all, &[]);
+	s.init = vec![Ev::Commit(fill), Ev::Drain, Ev::Commit(over), Ev::Stage(St::P), Ev::Stage(St::F), Ev::Stage(St::E)];
+	s.max_commits = n;
+	s.max_rejects = 0;
+	s.max_reopen = x;
+	s.stages = vec![St::P, St::F, St::E, St::R];
+	if let Some(mut c) = crash {
+		c.suffix = Some(vec![(0, Op::Set(page_key(C, 70), val(70))), (0, Op::Set(page_key(PA, 1), val(771)))]);
+		s.universe = universe_of(&cfg, &all, &[(0, page_key(C, 70))]);
+		s.crash = Some(c);
+	}
+	s.filter = Some(Arc::new(move |hist: &[Ev], ev: &Ev| match ev {
+		Ev::Stage(St::R) => hist.iter().filter(|e| matches!(e, Ev::Stage(St::R))).count() < max_r,
+		_ => true,
+	}));
+	s
+}
+
 pub fn scenarios(tier: &str) -> Vec<Scenario> {
 	if tier == "thorough" {
 		vec![
+			multi_scenario("growth-in-batches/n2", 2, 1, 5, None),
+			multi_scenario("growth-in-batches-crash/n1", 1, 0, 5, Some(CrashCfg { torn: 0, recovery_depth: 1, ..Default::default() })),
 			scenario("growth/n3", 1, 3, 1, None),
 			pending_scenario("growth-pending/n3", 3, 1),
 			scenario("growth/n2", 1, 2, 1, None),
@@ -203,7 +253,7 @@ pub fn scenarios(tier: &str) -> Vec<Scenario> {
 			scenario("growth-power-loss/n1", 0, 1, 0, Some(CrashCfg { torn: 0, recovery_depth: 1, power_loss: true, max_full_subsets: 8, ..Default::default() })),
 		]
 	} else {
-		vec![lane_scenario("page-search-edges/n4", 4, 0), scenario("growth/n1", 1, 1, 1, None), pending_scenario("growth-pending/n2", 2, 0), scenario("growth-crash/n1-growth-only", 9, 1, 0, Some(CrashCfg { torn: 0, recovery_depth: 1, ..Default::default() }))]
+		vec![multi_scenario("growth-in-batches/n1", 1, 1, 5, None), lane_scenario("page-search-edges/n4", 4, 0), scenario("growth/n1", 1, 1, 1, None), pending_scenario("growth-pending/n2", 2, 0), scenario("growth-crash/n1-growth-only", 9, 1, 0, Some(CrashCfg { torn: 0, recovery_depth: 1, ..Default::default() }))]
 	}
 }
 
